@@ -8,19 +8,24 @@ LEVEL_TEXT = ('SphereLattice.tla gives the exact integer answer of the direct pr
               'pole passages; TLC enumerates the lattice, checks its self-consistency and every vector is replayed on the series, exact and '
               'exact=true solvers through GenDirect (arc and distance) and line objects, validated by TLC.  On the ellipsoid family the laws '
               'of the property (4-way agreement at the documented accuracy, ranges, circuit counting, chain additivity, arc/distance, Clairaut) '
-              'are validated on seeded samples.')
+              'are validated on seeded samples.  The lattice is replayed on two sphere radii (metres != degrees) and on eight interfaces '
+              '(GenDirect, Line + GenPosition, DirectLine, ArcDirectLine, GenDirectLine, SetDistance / SetArc); GeodOverloads.tla holds the table '
+              'of all public overloads and line-constructor forms, TLC checks its consistency and every overload of every class must write what '
+              'the documented general call writes; the exact solver is judged by itself on b/a = 2^k and on a walk over 393 ellipsoids '
+              'n = j/200 (b/a in [0.0101, 99]) with solver-independent anchors (AGM quarter meridian, equator).')
 DESIGN_REF = 'DESIGN.md section 4, C01'
 LEVEL_NOTE = ('Trusted: TLC, SphereLattice.tla, closed-form geodetic->cartesian conversion in the driver. Absolute accuracy on the ellipsoid is decided '
               'through redundancy (two independent solvers, Clairaut), see DESIGN section 7.')
 TECHNIQUE = 'TLA+ lattice model + TLC enumeration, spec-to-code replay, TLC trace validation of laws'
-RULE = ('lattice direct problems enumerated by TLC (circle x node x start x arc, arcs in -721..721) each replayed on 9 solver/interface '
-        'configurations; seeded random direct problems on 9 flattenings x 3 radii with the property laws as residual records. '
-        'distinct_nontrivial = lattice vectors.')
-TRUSTED = ['TLC', 'SphereLattice.tla', 'drv_geod.cpp (quantisation, closed-form cartesian conversion)']
+RULE = ('lattice direct problems enumerated by TLC (circle x node x start x arc, arcs in -721..721, sphere radius rk in {1, 2}, one of six line '
+        'interfaces per vector) each replayed on 9 solver/interface configurations; the ellipsoid walk j in -196..196; seeded random direct '
+        'problems on 9 flattenings x 3 radii (dl) and on the extended family |f| = 0.05, 0.1, b/a = 2^-6..2^6 (dx) with the property laws as '
+        'residual records; every fourth record carries all 39 overloads and 12 constructor forms of its mode. distinct_nontrivial = lattice vectors.')
+TRUSTED = ['TLC', 'SphereLattice.tla', 'GeodOverloads.tla', 'drv_geod.cpp (quantisation, closed-form cartesian conversion, AGM quarter meridian)']
 
 
 def run(ctx):
-    geod_common.run(ctx, 'C01', ['dir'], [('dl', 20000, 1000000)])
+    geod_common.run(ctx, 'C01', ['dir', 'ell'], [('dl', 20000, 1000000), ('dx', 5000, 200000)])
     return ctx.finish(RULE, TRUSTED)
 
 
